@@ -39,7 +39,10 @@ def producers(ctx, rule='A5'):
         if isinstance(v, ast.Call) and call_name(v) == 'where' and len(v.args) == 3 and \
                 isinstance(a.targets[0], ast.Name) and a.targets[0].id == arr and \
                 any(isinstance(x, ast.Name) and x.id == arr for x in ast.walk(v.args[1])) and \
-                ('_get_inactive_value(' in norm(v.args[2]) or norm(v.args[2]) in canon):
+                ('_get_inactive_value(' in norm(v.args[2]) or norm(v.args[2]) in canon or
+                 # a broadcast view of the canonical values (`values[None, :]`, `values.reshape(1, -1)`)
+                 (not any(isinstance(c, ast.Call) and call_name(c) not in ('reshape',) for c in ast.walk(v.args[2]))
+                  and any(isinstance(x, ast.Name) and x.id in canon for x in ast.walk(v.args[2])))):
             return v
         return None
 
